@@ -129,6 +129,30 @@ pub fn run(ctx: &Ctx, ev: &mut Ev) {
             }
         }
     }
+    // (a3) mixed contexts: every sequence of <= 4 tokens over one token per arm of the validators / Latin1 scanners - ASCII,
+    // space, ESC / SO, both sides of U+00FF, characters of every UTF-8 length at their range limits, every class of defect -
+    // bare, after a 13-byte pad (stride + tail) and, for <= 3 tokens, after a 61-byte pad (SIMD-validator switch at 64)
+    if ctx.want("tokens") && !tiny {
+        let toks: Vec<&[u8]> = vec![b"a", b" ", b"\x1B", b"\x0E", "\u{E9}".as_bytes(), "\u{FF}".as_bytes(), "\u{100}".as_bytes(), "\u{7FF}".as_bytes(), "\u{800}".as_bytes(), "\u{4E00}".as_bytes(), "\u{FFFF}".as_bytes(), "\u{10000}".as_bytes(), "\u{10FFFF}".as_bytes(),
+            b"\x80", b"\xBF", b"\xC0\x80", b"\xC2", b"\xE0\x80\x80", b"\xE0\xA0", b"\xED\xA0\x80", b"\xEF\xBF", b"\xF0\x80\x80\x80", b"\xF0\x90\x80", b"\xF4\x90\x80\x80", b"\xF5", b"\xFF"];
+        let idx: Vec<usize> = (0..toks.len()).collect();
+        for seq in strings_over(&idx, if th { 5 } else { 4 }).iter() {
+            if !ev.mine() { continue; }
+            if seq.len() == 5 && (seq[0] * 7 + seq[1] * 5 + seq[2] * 3 + seq[3] + seq[4]) % 4 != (ctx.seed as usize) % 4 { continue; }
+            let mut v: Vec<u8> = vec![]; for t in seq { v.extend_from_slice(toks[*t]); }
+            let h = seq.iter().fold(7usize, |a, b| a * 31 + b);
+            check_bytes(&mut drv, ev, &v, h % 16, true, false);
+            if seq.len() <= 3 || h % 4 == 0 { let mut w = vec![b'a'; 13]; w.extend_from_slice(&v); check_bytes(&mut drv, ev, &w, (h / 16) % 16, true, false); }
+            if seq.len() <= 3 { let mut w = vec![b'a'; 61]; w.extend_from_slice(&v); check_bytes(&mut drv, ev, &w, (h / 7) % 16, true, false); }
+        }
+        let units: [u16; 9] = [0x61, 0xFF, 0x100, 0x4E00, 0xD800, 0xDBFF, 0xDC00, 0xDFFF, 0xFFFF];
+        for seq in strings_over(&units, if th { 6 } else { 5 }).iter() {
+            if !ev.mine() { continue; }
+            let h = seq.iter().fold(7usize, |a, b| a * 31 + *b as usize);
+            check_units(&mut drv, ev, seq, (h % 8) * 2, true);
+            if seq.len() <= 4 || h % 4 == 0 { let mut w = vec![0x61u16; 13]; w.extend_from_slice(seq); check_units(&mut drv, ev, &w, (h / 8 % 8) * 2, true); }
+        }
+    }
     // (b) two defects for selected lengths
     if ctx.want("two") && !tiny {
         let lens: Vec<usize> = (0..=40).chain(60..=70).chain(120..=135).collect();
